@@ -76,6 +76,12 @@ pub fn guard<T>(f: impl FnOnce() -> T) -> Result<T, String> {
 
 // ---------------------------------------------------------------- per-case context
 
+/// keys of recorded known findings of the property being checked (they never stop an exploration early)
+static KNOWN_KEYS: std::sync::OnceLock<Vec<String>> = std::sync::OnceLock::new();
+fn is_known_key(k: &str) -> bool {
+  KNOWN_KEYS.get().map(|v| v.iter().any(|x| x == k)).unwrap_or(false)
+}
+
 pub struct Viol {
   /// signature used for known-finding matching and de-duplication
   pub key: String,
@@ -118,9 +124,12 @@ impl CaseCx {
     self.viol_count.load(Ordering::Relaxed) >= 12
   }
   pub fn viol(&mut self, key: impl Into<String>, what: impl Into<String>, detail: Value) {
-    self.viol_count.fetch_add(1, Ordering::Relaxed);
+    let key: String = key.into();
+    if !is_known_key(&key) {
+      self.viol_count.fetch_add(1, Ordering::Relaxed);
+    }
     if self.viols.len() < 64 {
-      self.viols.push(Viol { key: key.into(), what: what.into(), detail });
+      self.viols.push(Viol { key, what: what.into(), detail });
     }
     *self.counts.entry("violating_observations").or_insert(0) += 1;
   }
@@ -242,6 +251,7 @@ fn run_check(spec: &PropSpec, ck: &Check, opt: &Options, deadline: Option<Instan
       s.spawn(|| {
         let mut local = Agg::default();
         let mut history: Vec<Value> = vec![];
+        let mut unknown_viols = 0usize;
         loop {
           let i = next.fetch_add(1, Ordering::Relaxed);
           if i >= cases.len() {
@@ -275,8 +285,10 @@ fn run_check(spec: &PropSpec, ck: &Check, opt: &Options, deadline: Option<Instan
             }
           }
           local.notes.extend(cx.notes);
+          let new_unknown = cx.viols.iter().filter(|v| !is_known_key(&v.key)).count();
+          unknown_viols += new_unknown;
           if !cx.viols.is_empty() {
-            let hist = std::sync::Arc::new(history.clone());
+            let hist = std::sync::Arc::new(if new_unknown > 0 { history.clone() } else { vec![] });
             for v in cx.viols {
               if local.viols.len() < 256 {
                 local.viols.push((v.key, v.what, v.detail, ck.name, case.clone(), hist.clone()));
@@ -287,7 +299,7 @@ fn run_check(spec: &PropSpec, ck: &Check, opt: &Options, deadline: Option<Instan
             history.push(case.clone());
           }
           // enough counterexamples: the remaining cases of this check are skipped (reported, not exhaustive)
-          if local.viols.len() >= 64 {
+          if unknown_viols >= 64 {
             local.cases_capped += (cases.len().saturating_sub(next.swap(cases.len(), Ordering::Relaxed))) as u64;
             break;
           }
@@ -367,6 +379,7 @@ fn rerun_with_history(spec: &PropSpec, check: &str, history: &[Value], case: &Va
 pub fn run_property(spec: PropSpec, opt: Options) -> i32 {
   install_silent_panic_hook();
   let known = load_known(&opt.verif_dir, spec.id);
+  let _ = KNOWN_KEYS.set(known.iter().map(|k| k.key.clone()).collect());
 
   // ---- replay mode: one recorded case, no explorer
   if let Some(path) = &opt.replay {
